@@ -13,9 +13,9 @@ COMMON_NOTE = (
 )
 
 NOTES = {
-    "C01": ("Verus proves, for signer sets of any size, on the mechanically extracted validate_proof / validate_signatures / message_hash_to_sign / weighted_signers / hash: soundness (Ok => registered retained set, quorum of valid signatures over keccak(domain||set hash||data hash)) and completeness (any sufficiently heavy subset of honest signatures is accepted, no trap). Kani proves on the unmodified contract.rs that approve_messages / validate_proof (entry) ask exactly that verdict over keccak(xdr((ApproveMessages, batch))) before any effect and propagate refusal. The approve loop is bounded (0,1,2 messages).",
+    "C01": ("Verus proves, for signer sets of any size, on the mechanically extracted validate_proof / validate_signatures / message_hash_to_sign / weighted_signers / hash: soundness (Ok => registered retained set, quorum of valid signatures over keccak(domain||set hash||data hash)) and completeness (any sufficiently heavy subset of honest signatures is accepted, no trap). Kani proves on the unmodified contract.rs that approve_messages / validate_proof (entry) ask exactly that verdict over keccak(xdr((ApproveMessages, batch))) before any effect and propagate refusal. The approve loop is bounded (0,1,2 messages). The same clauses are also stated as Kani harnesses on the unmodified auth.rs / types.rs (validate_proof for any size with its two list-inspecting callees replaced by contracts; validate_signatures and weighted_signers bounded to 2-3 proof entries), so that a change which gives those functions a shape the Verus extraction cannot handle is still decided.",
             "contract-based deductive verification: Verus (unbounded loops, extracted functions) + Kani function-contract harnesses with contract stubs on the real source"),
-    "C02": ("Kani: validate_message consumes iff the stored record is Approved(hash of the exact message for this caller), marks Executed, one event, frame; queries agree with storage; approve step (bounded 1,2 messages incl. in-batch duplicate) never touches a known id; a syntactic writer-frame scan shows no other function writes MessageApproval. The history clause (status only moves forward, approved content never changes, consumed at most once) is a Verus-checked induction (verus/lemmas.rs) over a hand-transcribed step relation made of exactly these obligations.",
+    "C02": ("Kani: validate_message consumes iff the stored record is Approved(hash of the exact message for this caller), marks Executed, one event, frame; queries agree with storage; approve step (bounded 1,2 messages incl. in-batch duplicate) never touches a known id; a syntactic writer-frame scan shows no other function writes MessageApproval; key-agnostic scenario harnesses (separately compiled, naming exported entry points only) restate independence of distinct (chain, id) pairs and the approve -> consume-once -> executed lifecycle through the public queries. The history clause (status only moves forward, approved content never changes, consumed at most once) is a Verus-checked induction (verus/lemmas.rs) over a hand-transcribed step relation made of exactly these obligations.",
             "Kani function-contract harnesses over arbitrary pre-state (lazy symbolic storage) + writer-frame scan + Verus history lemma"),
     "C03": ("Verus: validate_signers Ok => well-formed (any size). Kani: auth::rotate_signers Ok => validated first, epoch+1, both lookups written for keccak(xdr(set)), never installed before, one event, frame; the epoch<->set inverse-lookup invariant is preserved (arbitrary-witness encoding); the entry point binds the proof to (RotateSigners, this set), needs latest-or-bypass, operator auth for bypass. Construction (initialize_auth) is bounded (0,1,2 initial sets of any size).",
             "Verus loop invariant + Kani contracts with callee stubs and an inductive storage invariant"),
@@ -27,7 +27,7 @@ NOTES = {
             "Kani function-contract harnesses with an authorisation oracle (all principals at once)"),
     "C07": ("Kani, one harness per spending / burning / sending / consuming / deploying / forwarding entry point: returns only if the address named in the arguments is in the require_auth log, before the effect; delegated operations debit `from` against the allowance of exactly (from, spender).",
             "Kani function-contract harnesses with an authorisation oracle"),
-    "C08": ("Verus on validate_proof: Ok => Epoch - e <= retention and the latest flag is exact; completeness: a retained set is never refused (no trap, any retention up to u64::MAX). Kani: both entry points take their verdict only from validate_proof; non-bypass rotation needs the latest set.",
+    "C08": ("Verus on validate_proof: Ok => Epoch - e <= retention and the latest flag is exact; completeness: a retained set is never refused (no trap, any retention up to u64::MAX). Kani: both entry points take their verdict only from validate_proof; non-bypass rotation needs the latest set; the epoch counts installed sets only (a refused installation is never swallowed); validate_proof itself is also decided under Kani (retention window, latest flag, read-only, refused only when unregistered / outdated / insufficient signatures).",
             "Verus (both directions) + Kani contracts on the entry points"),
     "C09": ("Kani, full domain: update_rotation_timestamp refuses exactly when enforcing and now-last < minimum; every success restarts the clock; rotate_signers forwards enforce == !bypass; bypass needs the operator.",
             "Kani function-contract harnesses (loop-free, full-domain symbolic inputs: complete)"),
@@ -44,7 +44,7 @@ NOTES = {
             "Kani function-contract harnesses"),
     "C16": ("Kani: the default validate_message (on a minimal app) is Ok iff gateway.validate_message(app, same ids, keccak(payload)) returned true; Example::execute acts only after that (defect found and fixed: it ignored the result); exactly-once is the gateway's C02 contract.",
             "Kani function-contract harnesses across crates (gateway contract as oracle)"),
-    "C17": ("Kani: execute forwards exactly (contract, function, arguments of any length) once and returns the result, only for a current operator with its own auth; add/remove by the owner, absent->present / present->absent, frame; writer-frame scan.", "Kani function-contract harnesses + writer-frame scan"),
+    "C17": ("Kani: execute forwards exactly (contract, function, arguments of any length) once and returns the result, only for a current operator with its own auth; add/remove by the owner, absent->present / present->absent, frame; writer-frame scan; key-agnostic scenario harnesses (membership survives an ownership transfer; add then remove changes exactly one membership).", "Kani function-contract harnesses + writer-frame scan"),
     "C18": ("Kani: remote deployments look the token up under the id derived from the caller's own (deployer, salt) or the canonical address, require registration, use the token's own name/symbol/decimals, refuse unrepresentable metadata, announce exactly that deploy message with no minter via pay_gas_and_call_contract (trusted destination, gas from the payer), move nothing else.",
             "Kani function-contract harnesses with callee contract stubs"),
 }
@@ -67,7 +67,7 @@ manifest = {
         {"name": "real-host-replay", "path": "replay/", "serves_properties": ["C02", "C04", "C11", "C12", "C13", "C16"], "kind_free_text": "scenarios and shim-conformance tests on the real soroban-sdk testutils host"},
     ],
     "checks": [],
-    "notes": "All checks: ./check <ID> [--tier quick|thorough]; exit 0 = every obligation discharged (KNOWN-FINDING lines for listed defects), 1 = a named obligation failed (VIOLATION line), 2 = undecided (never an alarm). known_findings.json lists 2 fixed and 2 known defects. See DESIGN.md.",
+    "notes": "All checks: ./check <ID> [--tier quick|thorough]; exit 0 = every obligation discharged (KNOWN-FINDING lines for listed defects), 1 = a named obligation failed (VIOLATION line), 2 = undecided (never an alarm). known_findings.json lists 2 fixed and 3 known defects. See DESIGN.md.",
     "not_applicable": [],
 }
 for p in props:
